@@ -32,6 +32,10 @@ class Model:
             data = f.read()
         self.digest = hashlib.sha256(data).hexdigest()
         self.tree = ast.parse(data, filename=self.path)
+        self.normalisation = {"inlined": [], "kept": []}
+        if os.environ.get("SVA_NO_INLINE") != "1":
+            from .normalise import normalise
+            self.tree, self.normalisation = normalise(self.tree)
         self.source_lines = data.decode("iso-8859-1").splitlines()
         init = os.path.join(self.repo, "svgelements/__init__.py")
         self.init_tree = ast.parse(open(init, "rb").read(), filename=init)
